@@ -189,7 +189,19 @@ func waitParked(r *Run, timeout time.Duration) bool {
 //
 // Observations are taken while the merged files are protected by their marks
 // alone, and after the purge ran.
+// DirectedDroppedMergeOutput is the same schedule with another second half: instead of a
+// failed merge, a batch deletes every document, so the merge outputs the parked persister
+// never recorded drop out of the root (ScorchDisk!IntroSegment: r.dropped are un-marked).
+// At quiescence no mark and no file may be left.
+func DirectedDroppedMergeOutput(base string, seed int64) (*DirectedResult, error) {
+	return directedMerge(base, seed, true)
+}
+
 func DirectedFailedMerge(base string, seed int64) (*DirectedResult, error) {
+	return directedMerge(base, seed, false)
+}
+
+func directedMerge(base string, seed int64, wipe bool) (*DirectedResult, error) {
 	dir := filepath.Join(base, "idx")
 	defer os.RemoveAll(base)
 	res := &DirectedResult{}
@@ -238,6 +250,28 @@ func DirectedFailedMerge(base string, seed int64) (*DirectedResult, error) {
 	}
 	res.Merged = r.Rec.Count("IntroMerge") - merges0
 	r.Sample("merged-unpersisted")
+	if wipe {
+		if _, err := r.Submit(BatchSpec{W: 1, Puts: []string{}, Dels: ids}); err != nil {
+			return nil, err
+		}
+		r.Sample("merge-outputs-dropped")
+		purges0 := r.Rec.Count("PurgeEnd")
+		r.Rec.Emit("GoPurge", nil)
+		deadline := time.Now().Add(10 * time.Second)
+		for r.Rec.Count("PurgeEnd") < purges0+1 && time.Now().Before(deadline) {
+			time.Sleep(time.Millisecond)
+		}
+		r.SetHolds(nil)
+		if r.Settle(30 * time.Second) {
+			r.Sample("quiescent")
+		}
+		closed = true
+		if err := r.Close(); err != nil {
+			return nil, err
+		}
+		res.Events = r.Rec.Events()
+		return res, nil
+	}
 	// second merge, over the merged files: cancelled once it has marked its output
 	r.AddHold(HoldRule{Point: "merge.marked", Until: "GoMerge", Count: 1, Timeout: 30 * time.Second, Prob: 1, Once: true})
 	cleanups0 := r.Rec.Count("MergeCleanup")
